@@ -222,6 +222,9 @@ add(Contract(
         # a packet of the class, or None - and None only in silent mode
         "implies(isnone(result), silent)",
         "implies(not isnone(result), isinst(result, 'Packet'))",
+        # a packet is returned only when the whole parse succeeded (in silent mode a failed parse gives None, never
+        # the partially decoded packet); and it is the packet that was parsed
+        "implies(not isnone(result), g_parsed and same(result, g_pkt))",
     ],
     raises={
         # input that is not bytes is rejected with ValueError
@@ -230,6 +233,8 @@ add(Contract(
         'PacketError': ["isbytes(raw)", "not silent", "exc.was_error_found_in_unpacking_phase == True", "StackWF(exc)"],
     },
     known={'no OtherException* escapes': dict(id='K12a', case="not silent")},
+    ghost_init={'g_parsed': 'False', 'g_pkt': 'None'}, ghost_kinds={'g_parsed': 'bool', 'g_pkt': 'dyn'},
+    call_effects={'Packet.unpack_impl': {'g_parsed': 'result >= 0', 'g_pkt': 'arg_self'}},
     modifies=[], allocates=True, returns='dyn'))
 
 add(Contract(
